@@ -105,8 +105,19 @@ var wkinds = []wkind{
 		{"TableName", "table", "str", 255}}, fix: curFix},
 }
 
+// forceDynType >= 0: the dynamic operation type the next DYNAMIC packages get (each type has its own
+// optional parts); forceDynEmpty: with an empty statement
+var forceDynType = -1
+var forceDynEmpty = false
+
 func dynFix(rng *rand.Rand, f map[string]interface{}) {
 	f["type"] = []int{0x01, 0x02, 0x04, 0x08, 0x10, 0x20, 0x40}[rng.Intn(7)]
+	if forceDynType >= 0 {
+		f["type"] = forceDynType
+		if forceDynEmpty {
+			f["stmt"] = []int{}
+		}
+	}
 	if t := f["type"].(int); t&0x01 == 0 && t&0x08 == 0 {
 		f["stmt"] = []int{} // the statement travels only with PREPARE / EXEC_IMMED
 	}
@@ -1193,6 +1204,20 @@ func wireMain(args []string) error {
 		for i := 0; i < *count; i++ {
 			r.generic(k, *prefix || i%2 == 0, *prefix)
 		}
+	}
+	// DYNAMIC / DYNAMIC2: every operation type (the statement travels only with two of them), with and
+	// without a statement
+	for _, k := range wkinds {
+		if k.kind != "DYNAMIC" && k.kind != "DYNAMIC2" {
+			continue
+		}
+		for _, t := range []int{0x01, 0x02, 0x04, 0x08, 0x10, 0x20, 0x40} {
+			for _, empty := range []bool{false, true} {
+				forceDynType, forceDynEmpty = t, empty
+				r.generic(k, true, *prefix)
+			}
+		}
+		forceDynType, forceDynEmpty = -1, false
 	}
 	for i := 0; i < *count*3; i++ {
 		r.format(*prefix)
